@@ -113,7 +113,7 @@ theorem translated_one_outcome_counter (σ : Env) :
     (cs.count "nc.handleFailure" + cs.count "metrics.Node().Filtered.WithLabelValues(nc.Config.ID).Inc"
       + cs.count "metrics.Node().Successes.WithLabelValues(nc.Config.ID).Inc") = 1 := by
   rw [C01.translated_handleResult]
-  by_cases h1 : σ "err" = 0 <;> by_cases h2 : σ "len(result)" = 0 <;> simp [h1, h2, List.count_cons]
+  by_cases h1 : σ "err" = 0 <;> by_cases h2 : σ "len(result)" = 0 <;> simp [TransExpected.handleResult, h1, h2, List.count_cons]
 
 /-- discarded_events_total of the target grows by exactly one per dropped event and by nothing otherwise (one delivery of
 deliverToChild, translated from the source) -/
